@@ -77,6 +77,9 @@ Accepts(ev) ==
     [] ev.e = "AgentDone"   -> TRUE
     [] ev.e = "SkippedIllegalCall" -> TRUE   \* the driver refused a call whose precondition did not hold
     [] ev.e = "End"         -> G("C11", "NoLeakedLock", ev.complete = 1 => (holder = 0 /\ ev.holder = -1))
+    \* the harness' fair drain: eight complete rounds (every online agent a quiescent state, every online owner a run())
+    \* after the last registration and a callback of an online owner still has not run
+    [] ev.e = "Starved"     -> G("C11", "EveryCallbackRunsUnderFairQuiescing", FALSE)
     [] ev.e = "stall"       -> G("C11", "NoStall_EveryCallReturns", FALSE)
     [] ev.e = "deadlock"    -> G("C11", "NoDeadlock_EveryCallReturns", FALSE)
     [] ev.e = "panic"       -> G("C11", "NoPanicInLegalState", FALSE)
